@@ -268,6 +268,28 @@ def run_unit(ctx, u):
                     ctx.violation(f"{cls}|{label}|batch = stack of singles|row differs from the single-sample result", component=name, batch=B, permutation=list(perm), rows=rows, member=xs[rows[0]] if rows else None, got=out[rows[0]] if rows else list(out.shape), expected=exp[rows[0]] if rows else list(exp.shape))
                 else:
                     ctx.ok("batch = stack of singles")
+        # ---------------- other dtypes of the same values: the caller's tensor is never written to, and a second call
+        # with the same tensor gives the same answer (an in-place update on an aliased working copy breaks both)
+        X0 = torch.stack(pool[:3])
+        if torch.is_complex(X0):
+            dts = [torch.complex128]
+        elif bool(((X0 == 0) | (X0 == 1)).all()):
+            dts = [torch.float64, torch.int64, torch.int32, torch.uint8]
+        else:
+            dts = [torch.float64]
+        for dt in dts:
+            X = X0.to(dt)
+            snap, ver = X.clone(), X._version
+            ctx.case(name, label, "dtype", str(dt))
+            try:
+                o1 = call(X)
+                o2 = call(X)
+            except Exception:  # noqa: BLE001
+                ctx.skip(f"dtype {str(dt).replace('torch.', '')} rejected")
+                continue
+            o1, o2 = [t[0] if isinstance(t, tuple) else t for t in (o1, o2)]
+            ctx.check(bool(torch.equal(X, snap)) and X._version == ver, "input unmodified", f"{cls}|{label}|input unmodified|input tensor changed ({str(dt).replace('torch.', '')})", component=name)
+            ctx.check(close(o1, o2, exact), "repeatable", f"{cls}|{label}|repeatable|second call with the same {str(dt).replace('torch.', '')} tensor differs", component=name)
         # ---------------- large mixed batch vs singles evaluated in reverse order on a second object: a cache or
         # state keyed too coarsely gives order-dependent answers (many members guarantee key collisions)
         if kind in ("decoder", "encoder"):
